@@ -226,6 +226,19 @@ def rule_slots(ctx):
                 for k in n.keys:
                     if isinstance(k, ast.Constant):
                         keys.add(k.value)
+            # ... or a state filled key by key / by update(k=v)
+            elif isinstance(n, ast.Assign):
+                for t in n.targets:
+                    if isinstance(t, ast.Subscript) and isinstance(
+                            t.slice, ast.Constant) and isinstance(
+                            t.slice.value, str):
+                        keys.add(t.slice.value)
+            elif isinstance(n, ast.Call) and call_name(n) in (
+                    'update', 'setdefault', 'dict'):
+                keys |= {k.arg for k in n.keywords if k.arg}
+                if call_name(n) == 'setdefault' and n.args and isinstance(
+                        n.args[0], ast.Constant):
+                    keys.add(n.args[0].value)
         init_attrs = {n.attr for n in own_nodes(init)
                       if isinstance(n, ast.Attribute) and isinstance(
             n.ctx, ast.Store)} if init else set()
@@ -321,6 +334,27 @@ def _init_attrs(ctx, cls):
     return out
 
 
+def _dispatcher_attrs(ctx, c):
+    """Attributes of class c that some method binds to a new schedula
+    Dispatcher (`self.x = sh.Dispatcher(..)`)."""
+    out = set()
+    for m in c.methods.values():
+        if not m.params:
+            continue
+        for n in own_nodes(m):
+            if isinstance(n, ast.Assign) and isinstance(
+                    n.value, ast.Call) and isinstance(
+                    n.value.func, (ast.Name, ast.Attribute)):
+                r = ctx.cg.resolve_name_expr(m, n.value.func)
+                if r and r[0] == 'ext' and r[1].endswith('.Dispatcher'):
+                    for t in n.targets:
+                        if isinstance(t, ast.Attribute) and isinstance(
+                                t.value, ast.Name) and \
+                                t.value.id == m.params[0]:
+                            out.add(t.attr)
+    return out
+
+
 def rule_hooks(ctx):
     rr = RuleResult('C17', 'C17.hooks', 'SIB',
                     'custom copy/pickle hooks keep what calculations read and '
@@ -343,6 +377,35 @@ def rule_hooks(ctx):
                     and n.value is not None]
             for r in rets:
                 if isinstance(r, ast.Dict):
+                    # a *shallow copy* of a dispatcher in the state: the
+                    # dispatcher stores itself in its own default values
+                    # (sh.SELF), so the graph inside the state still refers to
+                    # the original and the copy's memo sees two objects
+                    for k_, v_ in zip(r.keys, r.values):
+                        inner = None
+                        if isinstance(v_, ast.Call) and len(v_.args) == 1 and \
+                                not v_.keywords and isinstance(
+                                v_.func, (ast.Name, ast.Attribute)) and \
+                                ctx.cg.resolve_name_expr(gs, v_.func) == (
+                                    'ext', 'copy.copy'):
+                            inner = v_.args[0]
+                        if inner is not None and isinstance(
+                                inner, ast.Attribute) and isinstance(
+                                inner.value, ast.Name) and gs.params and \
+                                inner.value.id == gs.params[0] and \
+                                inner.attr in _dispatcher_attrs(ctx, c):
+                            rr.fail(key_of(gs, 'state holds a shallow copy of '
+                                               'the dispatcher'),
+                                    '%s.__getstate__ puts copy.copy(self.%s) '
+                                    'into the state: the dispatcher is also '
+                                    'stored inside its own default values '
+                                    '(sh.SELF), so a deep copy or pickle '
+                                    'restores two dispatchers - the one the '
+                                    'model calls and the one the range '
+                                    'assemblers read absent cells from' % (
+                                        c.name, inner.attr),
+                                    file=gs.module.rel, function=gs.qualname,
+                                    line=v_.lineno)
                     kept = {k.value for k in r.keys if isinstance(k, ast.Constant)}
                     emptied = {k.value for k, v in zip(r.keys, r.values)
                                if isinstance(k, ast.Constant) and isinstance(
@@ -813,8 +876,13 @@ def rule_deepmemo(ctx):
 def run(ctx):
     S = ctx.soft
     from .modelstate import rule_emptied
+    from .c08 import rule_self as _rule_self
     return [S(rule_array, ctx), S(rule_slots, ctx), S(rule_tokens, ctx),
             S(rule_token_classes, ctx), S(rule_hooks, ctx), S(rule_restore, ctx),
             S(rule_classattr, ctx), S(rule_deepmemo, ctx),
             S(rule_emptied, ctx, 'C17', 'C17.emptied'), S(rule_getattr, ctx),
-            S(rule_global, ctx)]
+            S(rule_global, ctx),
+            # a compiled function that re-points the model's own sh.SELF record
+            # makes the original differ from every copy taken before (shared
+            # with C07/C08)
+            S(_rule_self, ctx, 'C17', 'C17.self')]
